@@ -12,7 +12,7 @@ def run(tier, seed, only=None):
     run = Run(ID, tier, seed)
     run.trusted = [T3, T4, T5, T6]
     run.assumptions = [T3, T4, LOGGING, MU.__doc__.split('\n\n')[1].replace('\n', ' ')]
-    for u in MU.units((ID,)):
+    for u in MU.units((ID,), tier):
         if only and u.name not in only:
             continue
         run.run_unit(u, prog)
